@@ -120,6 +120,52 @@ func Check(typ reflect.Type, msgs [][]byte, what string) *rp.Fail {
 			return rp.Failf("codec.UnmarshalArray/earlier-batch-overwritten", "%s: element %d of a batch the caller still holds changed when the next (shorter) batch was decoded into the same variable: %s", what, i, d)
 		}
 	}
+	// 3a. UnmarshalAs takes the TYPE of its template: a pointer to a struct that holds an earlier message is a template like any
+	// other - the result is what the message decodes to alone, the template is left as it was
+	{
+		tmpl := reflect.New(typ)
+		if codec.Unmarshal(clone(msgs[0]), tmpl.Interface()) == nil {
+			for k := 1; k < len(msgs); k++ {
+				var got any
+				if p := try(func() { got, err = codec.UnmarshalAs(clone(msgs[k]), tmpl.Interface()) }); p != nil {
+					return rp.Failf("codec.UnmarshalAs/panic", "%s: UnmarshalAs with a pointer template panicked: %v", what, p)
+				}
+				if err != nil || got == nil {
+					return rp.Failf("codec.UnmarshalAs/error", "%s: UnmarshalAs(%x) with a pointer template failed: %v", what, msgs[k], err)
+				}
+				gv := reflect.New(typ).Elem()
+				if rv := reflect.ValueOf(got); rv.Type() == typ {
+					gv.Set(rv)
+				} else if rv.Kind() == reflect.Ptr && rv.Elem().Type() == typ {
+					gv.Set(rv.Elem())
+				} else {
+					return rp.Failf("codec.UnmarshalAs/type", "%s: UnmarshalAs with a *%v template returned a %T", what, typ, got)
+				}
+				if d := fv.FirstDiff(alone[k].canon, fv.CanonAll(gv)); d != "" {
+					return rp.Failf("codec.UnmarshalAs/result-depends-on-template", "%s: UnmarshalAs(%x) through a pointer template that holds an earlier message differs from the message decoded alone: %s", what, msgs[k], d)
+				}
+				if n := nilness(gv); n != alone[k].nils {
+					return rp.Failf("codec.UnmarshalAs/result-depends-on-template", "%s: UnmarshalAs(%x) through a pointer template that holds an earlier message: pointer fields nil/set %s, decoded alone %s", what, msgs[k], n, alone[k].nils)
+				}
+				if d := fv.FirstDiff(alone[0].canon, fv.CanonAll(tmpl.Elem())); d != "" {
+					return rp.Failf("codec.UnmarshalAs/template-modified", "%s: the template passed to UnmarshalAs was modified: %s", what, d)
+				}
+			}
+		}
+	}
+	// 3b. an EMPTY batch decoded into the variable that holds the last one gives an empty result (a discovery nobody answered)
+	for _, empty := range [][][]byte{{}, nil} {
+		used := reflect.New(reflect.SliceOf(typ))
+		if p := try(func() { err = codec.UnmarshalArray([][]byte{clone(msgs[0]), clone(msgs[1])}, used.Interface()) }); p != nil || err != nil {
+			break
+		}
+		if p := try(func() { err = codec.UnmarshalArray(empty, used.Interface()) }); p != nil {
+			return rp.Failf("codec.UnmarshalArray/panic", "%s: UnmarshalArray of an empty batch panicked: %v", what, p)
+		}
+		if err == nil && used.Elem().Len() != 0 {
+			return rp.Failf("codec.UnmarshalArray/empty-batch-keeps-old-elements", "%s: an empty batch (nil: %v) decoded into a variable that held 2 elements left %d elements there", what, empty == nil, used.Elem().Len())
+		}
+	}
 	// 4. ... and into an empty window of a larger array: the rest of the array is not the decoder's
 	store := reflect.MakeSlice(reflect.SliceOf(typ), len(msgs)+1, len(msgs)+1)
 	for i := 0; i <= len(msgs); i++ {
